@@ -76,8 +76,8 @@ def model(ctx):
     return allowed, cex
 
 
-FAULTS_APPLY = ["nan_z", "inf_ra", "nan_w"]
-FAULTS_DIVIDE = ["pid_big", "pid_neg", "pid_wrap", "pid_wrap_neg"]
+FAULTS_APPLY = ["nan_z", "inf_ra", "nan_w", "interrupt"]
+FAULTS_DIVIDE = ["pid_big", "pid_neg", "pid_wrap", "pid_wrap_neg", "pid_nan"]
 
 
 def classify(yaw, c, res, exp_new):
